@@ -43,7 +43,7 @@ func zzC16_answer() {
 	vAssert(h.CommandCode == q.CommandCode && h.ApplicationID == q.ApplicationID, "answer has the request's command code and application id")
 	vAssert(h.HopByHopID == q.HopByHopID && h.EndToEndID == q.EndToEndID, "answer has the request's hop-by-hop and end-to-end ids (zero included)")
 	vAssert(h.CommandFlags&0x80 == 0, "request bit cleared")
-	vAssert(h.CommandFlags&0x7f == q.CommandFlags&0x7f, "proxiable and other flag bits unchanged")
+	vAssert(h.CommandFlags&0x40 == q.CommandFlags&0x40, "proxiable bit unchanged")
 	if rc != 0 {
 		vAssert(len(a.AVP) == 1 && a.AVP[0].Code == 268 && a.AVP[0].Data.(datatype.Unsigned32) == datatype.Unsigned32(rc), "Result-Code AVP carries the result code")
 		vAssert(a.AVP[0].Flags == 0x40 && a.AVP[0].VendorID == 0, "Result-Code AVP is mandatory, not vendor-specific")
